@@ -97,6 +97,7 @@ DEFAULTS: Dict[str, Any] = dict(
     sndbufs=[256 * 1024, 256 * 1024, 4096, 65536],  # server-side socket send buffer
     short_send=6,  # 1-in-n chance of short writes on the server socket (0: never)
     h2_window=None,  # fixed (large) client windows: no flow-control pacing at all
+    h2_padding=False,  # request bodies may be sent as padded DATA frames
 )
 
 
@@ -395,12 +396,20 @@ def _build_h2_script(tape: Tape, opts: Dict[str, Any], world: World, plan: ConnP
         req.sid = sid
         sids.append(sid)
         frame_sizes = gen_chunk_sizes(tape, len(req.body)) if req.body else []
+        pad = 0
+        if req.body and opts.get("h2_padding") and tape.chance(1, 5, "h2.pad"):
+            # padded DATA frames: the padding counts against flow control although it carries no body.  Many small
+            # frames with the largest padding, so that the padding alone exceeds a 64 KiB window
+            pad = 255
+            frame_sizes = [max(1, len(req.body) // 300)] * 400
+            csample["padded"] = True
 
-        def open_req(sc: Script, req: Req = req, sid: int = sid, frame_sizes: List[int] = frame_sizes) -> None:
+        def open_req(sc: Script, req: Req = req, sid: int = sid, frame_sizes: List[int] = frame_sizes,
+                     pad: int = pad) -> None:
             data = peer.headers(sid, h2_request_headers(req), end_stream=not req.body)
             sc.conn.client.send(data)
             if req.body:
-                peer.queue_upload(sid, req.body, True, frame_sizes)
+                peer.queue_upload(sid, req.body, True, frame_sizes, pad=pad)
 
         steps.append(("call", open_req))
         if not concurrent:
